@@ -501,6 +501,9 @@ func (w *World) applyTx(h int64, idx int, p *TxPlan, r *abci.ResponseDeliverTx, 
 		if tx.Type == trxProposal || tx.Type == trxVoting {
 			tp = []string{"C03", "C15"} // a proposal or vote no validator signed in that form
 		}
+		if p.ReplayOf >= 0 {
+			tp = append(append([]string(nil), tp...), "C04") // an earlier tx took effect a second time under a rewritten nonce
+		}
 		w.violate("tx.tampered-accepted", tp, h, "tx %d (%s): altered after signing (%s) yet succeeded", idx, kind, mutName(p))
 		// the model cannot follow an execution that must not exist
 		w.Fatal = true
